@@ -481,7 +481,9 @@ open DendroModel DendroModel.Hier DendroModel.C01.Aux
 /-- what `encode` returns, pair by pair: one pair per node of the tree left by the encoder's side effects; its first
     component is that node's leafset mask (whose bits are, by `mask_spec`, exactly the taxa on the leaves below it) and its
     second is that mask itself (rooted) or that mask normalised within the tree's own leafset on the lowest bit of that
-    leafset (unrooted and `is_rooted = None`; what that means as sets is `norm_sets`) -/
+    leafset (unrooted and `is_rooted = None`; what that means as sets is `norm_sets`).  Membership level only: that the
+    list has exactly one pair per node (multiplicity) is not stated here — it is `encode`'s definition (a `map` over
+    `masksPost`) — and which nodes survive the side effects is `encodeTree`'s, characterised by `encodeTree_norm_image`. -/
 theorem encode_pairs_spec (r : Option Bool) (s c : Bool) (t : T) (p : Nat × Int) :
     p ∈ encode r s c t ↔ ∃ n ∈ (encodeTree r s c t).nodes,
       p = (n.mask, (((if r == some true then n.mask
@@ -790,8 +792,11 @@ theorem rebuild_rooted_topology_partial (sup col : Bool) (t : T) (all : Nat) (me
     · exact Bridge.single_mem_clades _ b (by rw [toH_mask]; exact (hmem b).mp hb)
     · exact hx
 
-/-- rooted rebuild of an encoding, full strength (runner-up of audit H): as `rebuild_rooted_topology_partial`, without the
-    suppression on the rebuilt side — `build` never creates a unifurcation (`Bridge.build_noUnif`) -/
+/-- rooted rebuild of an encoding (runner-up of audit H): as `rebuild_rooted_topology_partial`, without the suppression on
+    the rebuilt side — `build` never creates a unifurcation (`Bridge.build_noUnif`).  ASSUMES `hmem`: the namespace members
+    are exactly the tree's taxa (only the all-bits mask may be larger); a namespace with extra members is
+    `rebuild_rooted_extras`.  `Iso` is one-directional by definition; here both sides are `Good` (`sup_good`,
+    `build_rooted_clades`), between which it is a genuine isomorphism (`iso_same`). -/
 theorem rebuild_rooted_topology (sup col : Bool) (t : T) (all : Nat) (members ss : List Nat)
     (hg : Good (T.toH t)) (h0 : t.mask ≠ 0) (hm : members.Nodup)
     (hmem : ∀ b, b ∈ members ↔ b ∈ bits t.mask) (hall : bits t.mask ⊆ bits all)
@@ -847,7 +852,10 @@ open DendroModel DendroModel.Hier DendroModel.C01.Aux
     leaf `k` hangs from (`canonU`, executable; the driver prints it and the harness compares it with the oracle's own
     graph-based canonical form).  `Bridge.canonU_spec` is the chain the earlier `_partial` lacked: every tree reaches that
     seed position by edge inversions (each one `usplits_invert`) and suppression of the unifurcations they leave.
-    (For fewer than three taxa there is one unrooted topology per leaf set and nothing to prove.) -/
+    (For fewer than three taxa there is one unrooted topology per leaf set and nothing to prove.)  Both sides of the `Iso`
+    are `Good` (`canonU_is_canonical`), so it is a genuine isomorphism.  The link between this `Iso` and the STRING the
+    harness compares is: `ucanon` re-seeds on `lowIdx`, which is this `k` (`ucanon_uses_lowest_taxon`); that equal
+    `renderSorted` strings mean `Iso` is not proved (compared on every unrooted pair instead). -/
 theorem encode_unrooted_iff_topology (s c s' c' : Bool) (t u : T) (hgt : Good (T.toH t)) (hgu : Good (T.toH u))
     (hL : t.mask = u.mask) (h3 : Bridge.ThreeTaxa t.mask) (k : Nat) (hk : Lsb.lsb t.mask = 1 <<< k) :
     (∀ z : Int, z ∈ (encode (some false) s c t).map (·.2) ↔ z ∈ (encode (some false) s' c' u).map (·.2)) ↔
@@ -978,7 +986,9 @@ open DendroModel DendroModel.Hier DendroModel.C01.Aux
     tree's ≥ 3 taxa (the all-bits mask may have more bits), the tree `build` makes of the split masks of the unrooted
     encoding **handed over in any order and multiplicity** is well formed, has no unifurcation, and is the encoded tree as
     an unrooted topology (same canonical re-seeding `canonU` up to child order).  The head filter's complement-on-bit-0
-    path is shown not to fire on an encoding (`prep_unrooted_of_avoid0`: normalised masks never contain bit 0). -/
+    path is shown not to fire on an encoding (`prep_unrooted_of_avoid0`: normalised masks never contain bit 0).
+    ASSUMES `hmem`: members = the tree's taxa; the unrooted rebuild over a namespace with extra members has no theorem
+    (oracle and correspondence only).  Both sides of the `Iso` are `Good`. -/
 theorem rebuild_unrooted_topology (sup col : Bool) (t : T) (all : Nat) (members ss : List Nat)
     (hg : Good (T.toH t)) (h3 : Bridge.ThreeTaxa t.mask) (hm : members.Nodup)
     (hmem : ∀ b, b ∈ members ↔ b ∈ bits t.mask) (hall : bits t.mask ⊆ bits all)
@@ -1156,7 +1166,7 @@ open DendroModel DendroModel.Hier DendroModel.C01.Aux
 /-- rooted: `treeCompatible` on the encoding the driver computes (= `Tree.is_compatible_with_bipartition` with default
     arguments) answers true for a clade `s` inside the tree's leafset iff `s` is disjoint from or nested with the leafset
     below EVERY edge of the tree.  (The shortcut "already in the encoding" is sound because the clades of one tree are
-    pairwise laminar.) -/
+    pairwise laminar.)  Stated for the default flags `true true` the library call uses, and for `s` inside the leafset. -/
 theorem tree_compatible_rooted_sets (t : T) (s : Nat) (hg : Good (T.toH t)) (h0 : t.mask ≠ 0) (hs : bits s ⊆ bits t.mask) :
     treeCompatible (encode (some true) true true t) (encodeTree (some true) true true t).mask (s : Int) = true ↔
       ∀ m ∈ t.masksPost, Disjoint (bits m) (bits s) ∨ bits m ⊆ bits s ∨ bits s ⊆ bits m := by
@@ -1307,6 +1317,176 @@ theorem tree_compatible_unrooted_sets (t : T) (s k : Nat) (hg : Good (T.toH t)) 
   · intro h; right
     intro m hm; exact (hone m hm).mpr (h m hm)
 
+end DendroModel.C01
+
+/-! ## final round (audit 2-J) -/
+namespace DendroModel.C01.Aux
+open DendroModel DendroModel.Hier DendroModel.C01
+
+/-- the bit index the driver normalises / re-seeds on (`lowIdx`, used by `ucanon`) is the one the theorems call `k` -/
+theorem lowIdx_spec (m : Nat) (h : m ≠ 0) : Lsb.lsb m = 1 <<< lowIdx m := by
+  obtain ⟨k, hk, hkm, hlow⟩ := lsb_spec m (by omega)
+  have hklt : k < m.log2 + 1 := by
+    have h1 : 2 ^ k ≤ m := Nat.ge_two_pow_of_testBit hkm
+    have := (Nat.le_log2 h).mpr h1; omega
+  have hf : (List.range (m.log2 + 1)).find? (fun i => m.testBit i) = some k := by
+    rw [List.find?_range_eq_some]
+    refine ⟨hkm, List.mem_range.mpr hklt, fun j hj => ?_⟩
+    rw [hlow j hj]; rfl
+  rw [hk]; unfold lowIdx; rw [hf]; rfl
+
+/-- quartets for the non-vacuity examples: ((t0,t1),(t2,t3)), the same tree seeded elsewhere (t0,(t1,(t2,t3))), and the
+    other quartet ((t0,t2),(t1,t3)) -/
+def exQ1 : T := .node 0 none none none [.node 1 none none none [.node 2 (some 0) none none [], .node 3 (some 1) none none []],
+    .node 4 none none none [.node 5 (some 2) none none [], .node 6 (some 3) none none []]]
+def exQ1' : T := .node 0 none none none [.node 1 (some 0) none none [], .node 2 none none none [.node 3 (some 1) none none [],
+    .node 4 none none none [.node 5 (some 2) none none [], .node 6 (some 3) none none []]]]
+def exQ2 : T := .node 0 none none none [.node 1 none none none [.node 2 (some 0) none none [], .node 3 (some 2) none none []],
+    .node 4 none none none [.node 5 (some 1) none none [], .node 6 (some 3) none none []]]
+
+end DendroModel.C01.Aux
+
+namespace DendroModel.C01
+open DendroModel DendroModel.Hier DendroModel.C01.Aux
+
+/-- what the driver's op `ucanon` re-seeds on is the lowest taxon of the tree, i.e. the `k` of
+    `encode_unrooted_iff_topology` (the remaining informal link: `renderSorted` is only compared, not proved, to identify
+    trees up to `Iso`) -/
+theorem ucanon_uses_lowest_taxon (m : Nat) (h : m ≠ 0) : Lsb.lsb m = 1 <<< lowIdx m := lowIdx_spec m h
+
+/-- `Bipartition.is_compatible_with` on two RAW unrooted leafsets `a`, `b` of a tree with leafset `L` (the code normalises
+    both on the lowest taxon `k`, then runs the bit test): true iff the bipartitions `a | L∖a`, `b | L∖b` are compatible —
+    one of the four intersections of sides is empty -/
+theorem is_compatible_unrooted_raw (a b L k : Nat) (ha : bits a ⊆ bits L) (hb : bits b ⊆ bits L) (hk : k ∈ bits L) :
+    isCompatible ((Hier.norm L (1 <<< k) a : Nat) : Int) ((Hier.norm L (1 <<< k) b : Nat) : Int) (L : Int) = true ↔
+      Quad (bits a) (bits b) (bits L) := by
+  rw [is_compatible_four_quadrants _ _ L k (norm_sub _ _ _) (norm_sub _ _ _) hk (norm_avoid _ _ _) (norm_avoid _ _ _)]
+  show Quad (bits (Hier.norm L (1 <<< k) a)) (bits (Hier.norm L (1 <<< k) b)) (bits L) ↔ _
+  rw [quad_norm_left L k a _ ha (norm_sub _ _ _), quad_symm, quad_norm_left L k b _ hb ha, quad_symm]
+
+/-- **rooted rebuild over a namespace with extra members** (the quantifier's "namespaces larger than the leaf set"): when
+    the members include the tree's ≥ 2 taxa and at least one taxon that is not on the tree, the tree `build` makes of the
+    rooted split masks of `encode`, in any order and multiplicity, has as clades exactly: all members together, each member
+    alone, and the clades of the encoded tree — i.e. it is (up to child order, `Iso` between two `Good` trees) the encoded
+    tree, unifurcations suppressed, with the absent members hung next to it under a new root. -/
+theorem rebuild_rooted_extras (sup col : Bool) (t : T) (all : Nat) (members ss : List Nat)
+    (hg : Good (T.toH t)) (hm : members.Nodup)
+    (hsub : bits t.mask ⊆ bits (maskL (members.map Hier.T.leaf))) (hall : bits (maskL (members.map Hier.T.leaf)) ⊆ bits all)
+    (h2 : ¬ (bits t.mask).Subsingleton) (hex : ∃ b ∈ members, b ∉ bits t.mask)
+    (hss : ∀ x : Nat, x ∈ ss ↔ (x : Int) ∈ (encode (some true) sup col t).map (·.2)) :
+    (∀ x, x ∈ clades (build all members true ss) ↔
+      x = maskL (members.map Hier.T.leaf) ∨ (∃ b ∈ members, x = 1 <<< b) ∨ x ∈ clades (Hier.sup (T.toH t))) ∧
+    Iso (.node (Hier.sup (T.toH t) :: (members.filter (fun b => !(t.mask.testBit b))).map Hier.T.leaf))
+        (build all members true ss) := by
+  have h0 : t.mask ≠ 0 := by
+    intro h; apply h2; rw [h, bits_zero]; exact Set.subsingleton_empty
+  have ht0 : Hier.mask (T.toH t) ≠ 0 := by rw [toH_mask]; exact h0
+  have hss' : ∀ x, x ∈ ss ↔ x ∈ clades (T.toH t) := by
+    intro x
+    rw [hss x, mem_encode_rooted, toH_clades]
+    constructor
+    · rintro ⟨y, hy, hyt⟩
+      have : x = y := by exact_mod_cast hy
+      subst this; exact hyt
+    · intro hx; exact ⟨x, rfl, hx⟩
+  obtain ⟨hgb, hmb, hcl⟩ := build_rooted_clades all members (T.toH t) ss hm hall hg (by rw [toH_mask]; exact hsub) hss'
+  have hmemM : ∀ b, b ∈ bits (maskL (members.map Hier.T.leaf)) ↔ b ∈ members := by
+    intro b; rw [Bridge.bits_maskL_leaves]; rfl
+  have hclades : ∀ x, x ∈ clades (build all members true ss) ↔
+      x = maskL (members.map Hier.T.leaf) ∨ (∃ b ∈ members, x = 1 <<< b) ∨ x ∈ clades (Hier.sup (T.toH t)) := by
+    intro x
+    rw [hcl x, sup_clades]
+    constructor
+    · rintro ((h | h) | ⟨h, _⟩)
+      · exact Or.inl h
+      · exact Or.inr (Or.inl h)
+      · exact Or.inr (Or.inr h)
+    · rintro (h | h | h)
+      · exact Or.inl (Or.inl h)
+      · exact Or.inl (Or.inr h)
+      · have hxs : bits x ⊆ bits t.mask := by rw [← toH_mask]; exact clades_sub _ x h
+        have hxa : x ≠ all := by
+          obtain ⟨b, hb, hbt⟩ := hex
+          intro he; rw [he] at hxs
+          exact hbt (hxs (hall ((hmemM b).mpr hb)))
+        by_cases hsing : (bits x).Subsingleton
+        · left; right
+          obtain ⟨i, hi⟩ := ne_zero_bits (clades_ne_zero _ hg ht0 x h)
+          refine ⟨i, (hmemM i).mp (hsub (hxs hi)), ?_⟩
+          apply bits_inj; rw [bits_shift]
+          ext j; constructor
+          · intro hj; exact hsing hj hi
+          · intro hj; rw [Set.mem_singleton_iff] at hj; subst hj; exact hi
+        · exact Or.inr ⟨h, hxa, hsing⟩
+  refine ⟨hclades, ?_⟩
+  -- the reference tree: the encoded tree (unifurcations suppressed) and the absent members under a new root
+  set ex := members.filter (fun b => !(t.mask.testBit b)) with hexd
+  have hexmem : ∀ b, b ∈ ex ↔ b ∈ members ∧ b ∉ bits t.mask := by
+    intro b; rw [hexd, List.mem_filter]
+    constructor
+    · rintro ⟨h1, h2'⟩; refine ⟨h1, fun hb => ?_⟩
+      have hb' : t.mask.testBit b = true := hb
+      rw [hb'] at h2'; exact Bool.noConfusion h2'
+    · rintro ⟨h1, h2'⟩; refine ⟨h1, ?_⟩
+      cases hb : t.mask.testBit b
+      · rfl
+      · exact absurd hb h2'
+  have hexne : ex ≠ [] := by
+    obtain ⟨b, hb, hbt⟩ := hex
+    intro he; have := (hexmem b).mpr ⟨hb, hbt⟩; rw [he] at this; cases this
+  have hexnd : ex.Nodup := hm.filter _
+  have hsupm : Hier.mask (Hier.sup (T.toH t)) = t.mask := by rw [sup_mask, toH_mask]
+  have hXmask : maskL (Hier.sup (T.toH t) :: ex.map Hier.T.leaf) = maskL (members.map Hier.T.leaf) := by
+    apply bits_inj
+    simp only [maskL, bits_or, hsupm, Bridge.bits_maskL_leaves]
+    ext b; simp only [Set.mem_union, Set.mem_ofPred_eq]
+    constructor
+    · rintro (h | h)
+      · exact (hmemM b).mp (hsub h)
+      · exact ((hexmem b).mp h).1
+    · intro h
+      by_cases hbt : b ∈ bits t.mask
+      · exact Or.inl hbt
+      · exact Or.inr ((hexmem b).mpr ⟨h, hbt⟩)
+  have hXgood : GoodL (Hier.sup (T.toH t) :: ex.map Hier.T.leaf) := by
+    simp only [GoodL]
+    refine ⟨sup_good _ hg, by rw [hsupm]; exact h0, ?_, Bridge.goodL_leaves ex hexnd⟩
+    rw [hsupm, and_eq_zero_iff, Bridge.bits_maskL_leaves, Set.disjoint_left]
+    intro b hb hbe; exact ((hexmem b).mp hbe).2 hb
+  have hXnu : NoUnif (.node (Hier.sup (T.toH t) :: ex.map Hier.T.leaf)) := by
+    simp only [NoUnif, NoUnifL]
+    refine ⟨?_, sup_noUnif _ hg ht0, ?_⟩
+    · cases hq : ex with
+      | nil => exact absurd hq hexne
+      | cons _ _ => simp
+    · have hl : ∀ l : List Nat, NoUnifL (l.map Hier.T.leaf) := by
+        intro l
+        induction l with
+        | nil => simp [NoUnifL]
+        | cons b r ih => simp [NoUnifL, NoUnif, ih]
+      exact hl ex
+  have hne : members ≠ [] := by
+    obtain ⟨b, hb, _⟩ := hex; intro he; rw [he] at hb; cases hb
+  have hMne : maskL (members.map Hier.T.leaf) ≠ 0 := by
+    intro hz; apply h0; apply bits_inj; rw [bits_zero]
+    have := hsub; rw [hz, bits_zero] at this; exact Set.subset_empty_iff.mp this
+  apply clades_injective _ _ (by simpa [Good] using hXgood) (by simp only [Hier.mask]; rw [hXmask]; exact hMne)
+    hgb (by rw [hmb]; exact hMne) hXnu (Bridge.build_noUnif all members true ss hne)
+  intro x
+  rw [hclades x]
+  simp only [clades, cladesL, List.mem_cons, List.mem_append, hXmask, Bridge.cladesL_leaves]
+  constructor
+  · rintro (h | h | ⟨b, hb, rfl⟩)
+    · exact Or.inl h
+    · exact Or.inr (Or.inr h)
+    · exact Or.inr (Or.inl ⟨b, ((hexmem b).mp hb).1, rfl⟩)
+  · rintro (h | ⟨b, hb, rfl⟩ | h)
+    · exact Or.inl h
+    · by_cases hbt : b ∈ bits t.mask
+      · exact Or.inr (Or.inl (Bridge.single_mem_clades _ b (by rw [hsupm]; exact hbt)))
+      · exact Or.inr (Or.inr ⟨b, (hexmem b).mpr ⟨hb, hbt⟩, rfl⟩)
+    · exact Or.inr (Or.inl h)
+
 /-! non-vacuity: the hypotheses are met by concrete trees -/
 example : Good (T.toH (.node 0 none none none [.node 1 (some 0) none none [], .node 2 none none none
     [.node 3 (some 2) none none [], .node 4 (some 3) none none []]])) := by
@@ -1359,6 +1539,29 @@ example : treeCompatible (encode (some true) true true exT) (encodeTree (some tr
 example : treeCompatible (encode (some false) true true exT) (encodeTree (some false) true true exT).mask 12 = true := by decide
 example : bits 12 ⊆ bits (T.mask exT) ∧ 0 ∉ bits 12 :=
   ⟨by rw [← and_eq_left_iff]; decide, by show ¬ (Nat.testBit _ _ = true); decide⟩
+-- final round.  encode_unrooted_iff_topology on FOUR taxa, where there are three unrooted topologies: the two drawings of the
+-- quartet 01|23 get the same canonical form and the same split set {0,2,4,8,12,14}; the quartet 02|13 differs in both
+example : Good (T.toH exQ1) ∧ Good (T.toH exQ1') ∧ Good (T.toH exQ2) := by
+  simp [exQ1, exQ1', exQ2, T.toH, T.toHL, Good, GoodL, Hier.mask, Hier.maskL]
+example : T.mask exQ1 = 15 ∧ T.mask exQ1' = 15 ∧ T.mask exQ2 = 15 ∧ Lsb.lsb 15 = 1 <<< 0 := by decide
+example : renderSorted (canonU 0 (Hier.sup (T.toH exQ1))) = "((2,3),0,1)" := by decide
+example : renderSorted (canonU 0 (Hier.sup (T.toH exQ1'))) = "((2,3),0,1)" := by decide
+example : renderSorted (canonU 0 (Hier.sup (T.toH exQ2))) = "((1,3),0,2)" := by decide
+example : (12 : Int) ∈ (encode (some false) true true exQ1).map (·.2) ∧ (12 : Int) ∈ (encode (some false) true true exQ1').map (·.2)
+    ∧ (12 : Int) ∉ (encode (some false) true true exQ2).map (·.2) := by decide
+-- ucanon_uses_lowest_taxon
+example : lowIdx 12 = 2 ∧ Lsb.lsb 12 = 1 <<< 2 := by decide
+-- is_compatible_unrooted_raw: raw leafsets {0,1} and {0,1,2} of a 4-taxon tree (both contain the lowest taxon)
+example : bits 3 ⊆ bits 15 ∧ bits 7 ⊆ bits 15 ∧ 0 ∈ bits 15 :=
+  ⟨by rw [← and_eq_left_iff]; decide, by rw [← and_eq_left_iff]; decide, by show Nat.testBit _ _ = true; decide⟩
+-- rebuild_rooted_extras: exT has taxa 0,2,3; the namespace also has member 1, which ends up next to the tree under a new root
+example : ([0, 1, 2, 3] : List Nat).filter (fun b => !((T.mask exT).testBit b)) = [1] := by decide
+example : Hier.render (build 15 [0, 1, 2, 3] true [13, 12, 1, 8, 4]) = "(1,(0,(2,3)))" := by decide
+example : ¬ (bits (T.mask exT)).Subsingleton := by
+  intro h
+  have h0 : (0 : Nat) ∈ bits (T.mask exT) := by show Nat.testBit _ _ = true; decide
+  have h2 : (2 : Nat) ∈ bits (T.mask exT) := by show Nat.testBit _ _ = true; decide
+  exact absurd (h h0 h2) (by decide)
 end
 
 end DendroModel.C01
